@@ -1035,7 +1035,7 @@ fn c03_nlri_ipv6() {
     kani::cover!(!ok);
 }
 
-//@ id=C03 tier=thorough cap=1800 mem=24
+//@ id=C03 tier=off cap=3600 mem=40
 //@ fn: bgp::PeerCodec::decode_nlri, bgp::Nlri::decode, vpn::VpnV4Nlri::decode, rd / mpls label helpers
 //@ bound: ALL byte strings of length 0..=17 as one NLRI of this family, add-path on/off, reach/withdraw; unwind 24
 //@ desc: total (an NLRI or a NOTIFICATION, no panic / out-of-bounds), the cursor never passes the end, an accepted NLRI consumed at least one byte
@@ -1048,7 +1048,7 @@ fn c03_nlri_vpnv4() {
     kani::cover!(!ok);
 }
 
-//@ id=C03 tier=thorough cap=1800 mem=24
+//@ id=C03 tier=off cap=3600 mem=40
 //@ fn: bgp::PeerCodec::decode_nlri, bgp::Nlri::decode, labeled::LabeledV4Nlri::decode, mpls label helpers
 //@ bound: ALL byte strings of length 0..=10 as one NLRI of this family, add-path on/off, reach/withdraw; unwind 24
 //@ desc: total (an NLRI or a NOTIFICATION, no panic / out-of-bounds), the cursor never passes the end, an accepted NLRI consumed at least one byte
@@ -1061,7 +1061,7 @@ fn c03_nlri_labeled_v4() {
     kani::cover!(!ok);
 }
 
-//@ id=C03 tier=thorough cap=1800 mem=24
+//@ id=C03 tier=off cap=3600 mem=40
 //@ fn: bgp::PeerCodec::decode_nlri, bgp::Nlri::decode, rtc::RtcNlri::decode
 //@ bound: ALL byte strings of length 0..=14 as one NLRI of this family, add-path on/off, reach/withdraw; unwind 24
 //@ desc: total (an NLRI or a NOTIFICATION, no panic / out-of-bounds), the cursor never passes the end, an accepted NLRI consumed at least one byte
